@@ -1708,6 +1708,116 @@ where
 //@end
 }
 
+// ---- "the reader guarantees that we do not have unmatched tags": the End arms of the top-level entry points ----
+/// deserialize_struct / deserialize_unit of `&mut Deserializer` contain `DeEvent::End(e) => unreachable!`. In general that is a
+/// protocol between the crate and foreign visitors; for the callers under contract here -- the value deserializer of a map,
+/// which has PEEKED a Start or a Text -- it is a fact: `val_ok`
+pub trait DeDeserializerVal<'de>: Sized {
+    spec fn val_ok(&self) -> bool;
+    fn deserialize_struct<V: Visitor<'de>>(self, name: &'static str, fields: &'static [&'static str], visitor: V) -> (r: Result<V::Value, DeError>)
+        requires self.val_ok();
+    fn deserialize_unit<V: Visitor<'de>>(self, visitor: V) -> (r: Result<V::Value, DeError>)
+        requires self.val_ok();
+}
+impl<'de, 'a, R, E> DeDeserializerVal<'de> for &'a mut Deserializer<'de, R, E>
+where
+    R: XmlRead<'de>,
+    E: EntityResolver,
+{
+    closed spec fn val_ok(&self) -> bool { (**self).inv() && ((**self).peeked_text() || (**self).peeked_start()) }
+//@extract de::Deserializer::deserialize_struct | src/de/mod.rs :: impl<'de, 'a, R, E> de::Deserializer<'de> for &'a mut Deserializer<'de, R, E> where R: XmlRead<'de>, E: EntityResolver, :: fn deserialize_struct | serves=C07 features=serialize
+    fn deserialize_struct<V>(
+        self,
+        _name: &'static str,
+        fields: &'static [&'static str],
+        visitor: V,
+    ) -> Result<V::Value, DeError>
+    where
+        V: Visitor<'de>,
+    {
+        match self.next()? {
+            DeEvent::Start(e) => visitor.visit_map(ElementMapAccess::new(self, e, fields)?),
+            // SAFETY: The reader is guaranteed that we don't have unmatched tags
+            // If we here, then out deserializer has a bug
+            DeEvent::End(e) => unreachable!(),
+            // Deserializer methods are only hints, if deserializer could not satisfy
+            // request, it should return the data that it has. It is responsibility
+            // of a Visitor to return an error if it does not understand the data
+            DeEvent::Text(e) => match e.text {
+                Cow::Borrowed(s) => visitor.visit_borrowed_str(s),
+                Cow::Owned(s) => visitor.visit_string(s),
+            },
+            DeEvent::Eof => Err(DeError::UnexpectedEof),
+        }
+    }
+//@end
+//@extract de::Deserializer::deserialize_unit | src/de/mod.rs :: impl<'de, 'a, R, E> de::Deserializer<'de> for &'a mut Deserializer<'de, R, E> where R: XmlRead<'de>, E: EntityResolver, :: fn deserialize_unit | serves=C07 features=serialize
+    /// Unit represented in XML as a `xs:element` or text/CDATA content.
+    /// Any content inside `xs:element` is ignored and skipped.
+    ///
+    /// Produces unit struct from any of following inputs:
+    /// - any `<tag ...>...</tag>`
+    /// - any `<tag .../>`
+    /// - any consequent text / CDATA content (can consist of several parts
+    ///   delimited by comments and processing instructions)
+    ///
+    /// # Events handling
+    ///
+    /// |Event             |XML                        |Handling
+    /// |------------------|---------------------------|-------------------------------------------
+    /// |[`DeEvent::Start`]|`<tag>...</tag>`           |Calls `visitor.visit_unit()`, consumes all events up to and including corresponding `End` event
+    /// |[`DeEvent::End`]  |`</tag>`                   |This is impossible situation, the method will panic if it happens
+    /// |[`DeEvent::Text`] |`text content` or `<![CDATA[cdata content]]>` (probably mixed)|Calls `visitor.visit_unit()`. The content is ignored
+    /// |[`DeEvent::Eof`]  |                           |Emits [`UnexpectedEof`](DeError::UnexpectedEof)
+    fn deserialize_unit<V>(self, visitor: V) -> Result<V::Value, DeError>
+    where
+        V: Visitor<'de>,
+    {
+        match self.next()? {
+            DeEvent::Start(s) => {
+                self.read_to_end(s.name())?;
+                visitor.visit_unit()
+            }
+            DeEvent::Text(_) => visitor.visit_unit(),
+            // SAFETY: The reader is guaranteed that we don't have unmatched tags
+            // If we here, then out deserializer has a bug
+            DeEvent::End(e) => unreachable!(),
+            DeEvent::Eof => Err(DeError::UnexpectedEof),
+        }
+    }
+//@end
+}
+impl<'de, 'd, 'm, R, E> MapValueDeserializer<'de, 'd, 'm, R, E>
+where
+    R: XmlRead<'de>,
+    E: EntityResolver,
+{
+//@extract de::map::MapValueDeserializer::deserialize_struct | src/de/map.rs :: impl<'de, 'd, 'm, R, E> de::Deserializer<'de> for MapValueDeserializer<'de, 'd, 'm, R, E> where R: XmlRead<'de>, E: EntityResolver, :: fn deserialize_struct | serves=C07 features=serialize
+//@rewrite-opt Self::Error ==> DeError
+    fn deserialize_struct<V>(
+        self,
+        name: &'static str,
+        fields: &'static [&'static str],
+        visitor: V,
+    ) -> (r: Result<V::Value, DeError>)
+    where
+        V: Visitor<'de>,
+        requires self.ok(),
+    {
+        self.map.de.deserialize_struct(name, fields, visitor)
+    }
+//@end
+//@extract de::map::MapValueDeserializer::deserialize_unit | src/de/map.rs :: impl<'de, 'd, 'm, R, E> de::Deserializer<'de> for MapValueDeserializer<'de, 'd, 'm, R, E> where R: XmlRead<'de>, E: EntityResolver, :: fn deserialize_unit | serves=C07 features=serialize
+//@rewrite-opt Self::Error ==> DeError
+    fn deserialize_unit<V>(self, visitor: V) -> (r: Result<V::Value, DeError>)
+    where
+        V: Visitor<'de>,
+        requires self.ok(),
+    {
+        self.map.de.deserialize_unit(visitor)
+    }
+//@end
+}
 // ---- enums at the top level (src/de/var.rs): the same invariants ----
 //@extract de::var::EnumAccess | src/de/var.rs :: struct EnumAccess | serves=C07 features=serialize
  struct EnumAccess<'de, 'd, R, E>
